@@ -14,8 +14,10 @@ Definition api := defs (parse_lines false (map lit api_lines)).
    tactic-time evaluation; the cast is checked by the kernel) *)
 Theorem C02x_ids_distinct : ids_distinct api = true.
 Proof. vm_cast_no_check (eq_refl true). Qed.
+Print Assumptions C02x_ids_distinct.
 Theorem C02x_reg_consistent : reg_consistent shipped = true.
 Proof. vm_cast_no_check (eq_refl true). Qed.
+Print Assumptions C02x_reg_consistent.
 Theorem C02x_fields_exact : fields_exact shipped api = true.
 Proof. vm_cast_no_check (eq_refl true). Qed.
 Print Assumptions C02x_fields_exact.
